@@ -1484,3 +1484,78 @@ func (s *Steer) DeriveFree(r *rand.Rand, start string, free int, alphabet []rune
 	}
 	return out
 }
+
+// ---------- operator tables: alternatives that are prefixes of one another ----------
+
+// Operators builds the token rule of a typical lexer: one choice of five to nine alternatives in which families of
+// literals are prefixes of one another ('<<=' / '<<' / '<'), written longest first as PEG requires — usually, sometimes
+// deliberately not — and mixed with alternatives whose first characters are unique; every alternative ends in its own
+// action (some also capture), so that which alternative was taken is visible in the action trace and the tokens. The
+// ORDER of overlapping alternatives is the meaning of such a choice; an optimiser that regroups alternatives by first
+// character has to keep it.
+func Operators(r *rand.Rand) *Grammar {
+	for {
+		pool := []rune("<>=+-*&|!.:")
+		r.Shuffle(len(pool), func(i, j int) { pool[i], pool[j] = pool[j], pool[i] })
+		nf := 1 + r.Intn(2)
+		var alts []*Expr
+		wrap := func(e *Expr) *Expr {
+			switch r.Intn(4) {
+			case 0:
+				return Seq(Un(KCapture, e), Act())
+			case 1:
+				return Seq(Act(), e, Act())
+			default:
+				return Seq(e, Act())
+			}
+		}
+		pi := 0
+		for f := 0; f < nf; f++ {
+			base := pool[pi]
+			pi++
+			ext := pool[pi]
+			pi++
+			// family: base ext ext', base ext, base  (2-4 members)
+			members := [][]rune{{base, base, ext}, {base, base}, {base, ext}, {base}}
+			if r.Intn(2) == 0 {
+				members = [][]rune{{base, ext, ext}, {base, ext}, {base}}
+			}
+			k := 2 + r.Intn(len(members)-1)
+			members = members[len(members)-k:]
+			if r.Intn(5) == 0 {
+				// not longest-first: the shorter one shadows the longer one, and must keep doing so
+				members[0], members[len(members)-1] = members[len(members)-1], members[0]
+			}
+			for _, m := range members {
+				alts = append(alts, wrap(&Expr{K: KLit, Text: m}))
+			}
+		}
+		// alternatives with unique first characters, at random places (the family order is kept)
+		ns := 3 + r.Intn(3)
+		for s := 0; s < ns && pi < len(pool); s++ {
+			var e *Expr
+			switch r.Intn(4) {
+			case 0:
+				e = Un(KPlus, Rng('0', '9'))
+				if s > 0 {
+					e = Un(KPlus, Rng('a', 'f'))
+				}
+			default:
+				e = &Expr{K: KLit, Text: []rune{pool[pi]}}
+				pi++
+			}
+			at := r.Intn(len(alts) + 1)
+			alts = append(alts[:at], append([]*Expr{wrap(e)}, alts[at:]...)...)
+		}
+		// (two alternatives may both be [0-9]+ / [a-f]+ duplicates: fine, the second is dead)
+		g := &Grammar{}
+		sp := Un(KStar, Lit(" "))
+		g.Rules = append(g.Rules, &Rule{Name: "R0", E: Seq(Un(KPlus, Seq(Ref("Op"), sp)), Un(KNot, Dot()))})
+		g.Rules = append(g.Rules, &Rule{Name: "Op", E: Alt(alts...)})
+		if !g.WellFormed() {
+			continue
+		}
+		g.Number()
+		return g
+	}
+}
